@@ -170,6 +170,17 @@ def r3_bounds_reach_scan(ctx):
             lo_names = {x.id for x in ast.walk(lo) if isinstance(x, ast.Name)} if lo is not None else set()
             lo_names = {x for x in lo_names if x in startvars}
             feeds = pos in lo_names or any(d.name in lo_names and is_name(d.value, pos) and d.kind == 'assign' for d in rd.defs)
+            # the same step with the found position kept in a variable of its own: `found = got.find(w, start, end)` ... `start = found + len(w)`
+            adv2 = False
+            for m in graph.reachable(n.nsucc(), efilter=graph.normal_only):
+                if m.kind == 'stmt' and isinstance(m.ast, ast.Assign) and len(m.ast.targets) == 1 and isinstance(m.ast.targets[0], ast.Name) and m.ast.targets[0].id in lo_names and \
+                        isinstance(m.ast.value, ast.BinOp) and isinstance(m.ast.value.op, ast.Add):
+                    sides = [m.ast.value.left, m.ast.value.right]
+                    if any(is_name(x, pos) for x in sides) and any(isinstance(x, ast.Call) and is_name(x.func, 'len') for x in sides):
+                        adv2 = True
+            if adv2 and pos not in startvars:
+                adv, feeds = True, True
+                startvars = startvars | {pos}
             rep.ob('C06.R3', ctx.loc(f, c), '%s += len(piece)' % pos, adv and pos in startvars and feeds,
                    'after a match the lower bound moves past the piece' if adv and pos in startvars and feeds else
                    ('the lower bound is not advanced past a matched piece' if not (adv and pos in startvars) else
